@@ -89,7 +89,7 @@ def run_crate(crate, specs):
             # own process group, so that a timeout also kills the cbmc / solver children (they would otherwise spin for hours)
             pr = subprocess.Popen(cmd, cwd=cdir, env=env, stdout=subprocess.PIPE, stderr=subprocess.PIPE, text=True, start_new_session=True)
             try:
-                so, se = pr.communicate(timeout=spec.get("timeout", 420))
+                so, se = pr.communicate(timeout=spec.get("timeout", 900))
             except subprocess.TimeoutExpired:
                 import signal
                 try:
@@ -100,7 +100,7 @@ def run_crate(crate, specs):
                 raise
             o = so + "\n" + se
         except subprocess.TimeoutExpired as e:
-            out.append({"crate": crate, "harness": "*", "kind": "complete", "status": "infra", "msg": "cargo kani timed out after %ds (a solver query that is fast on the unchanged tree did not finish)" % spec.get("timeout", 420),
+            out.append({"crate": crate, "harness": "*", "kind": "complete", "status": "infra", "msg": "cargo kani timed out after %ds (a solver query that is fast on the unchanged tree did not finish)" % spec.get("timeout", 900),
                         "cmd": shown, "checks": 0, "failed_checks": 0, "wall_s": time.time() - t0})
             continue
         res = parse_output(o)
